@@ -83,6 +83,19 @@ class NP:
         return _elem(s)(x)
 
     @staticmethod
+    def copysign(a, b):
+        def f(av, bv):
+            av, bv = _q(av), _q(bv)
+            mag = atoms.absval(av)
+            return ite(bv >= 0, mag, -mag)
+        if isinstance(b, _np.ndarray):
+            out = _np.empty(b.shape, dtype=object).view(SArr)
+            for idx in _np.ndindex(b.shape):
+                out[idx] = f(a[idx] if isinstance(a, _np.ndarray) else a, b[idx])
+            return out
+        return f(a, b)
+
+    @staticmethod
     def isnan(x):
         return _elem(lambda v: B(False))(x)
 
